@@ -100,7 +100,7 @@ func (u *Unit) resolveTypeExpr(pkg *packages.Package, ex ast.Expr) types.Type {
 	case *ast.InterfaceType:
 		return types.NewInterfaceType(nil, nil)
 	}
-	u.eng.specError("cannot resolve type in contract (package %s)", pkg.PkgPath)
+	u.eng.specError("cannot resolve type %s in contract (package %s)", exprString(ex), pkg.PkgPath)
 	return types.Typ[types.Int]
 }
 
@@ -611,6 +611,28 @@ func (u *Unit) specCall(st *State, e *SExpr, env *SpecEnv, q *bool) *Val {
 		}
 		f := u.d.fun("pure!"+fname+"!"+idx, sorts, sortOf(rt))
 		return u.fromScalar(st, app(f, terms...), rt)
+	case "reflLen": // reflLen(x): length of the slice held in the interface value x (what reflect.ValueOf(x).Len() returns)
+		u.reflDecls()
+		return intVal(app(u.d.fun("refl.len", []string{SInt}, SInt), ev(0).S))
+	case "reflIndex": // reflIndex(x, i): element i of the slice held in x, as an interface value
+		u.reflDecls()
+		return &Val{T: types.NewInterfaceType(nil, nil), S: app(u.d.fun("refl.index", []string{SInt, SInt}, SInt), ev(0).S, ev(1).S)}
+	case "fnapp": // fnapp(f, args...): what the function value f returns for these arguments (see `pureparam` / `pureresult`)
+		f := ev(0)
+		sig, ok := types.Unalias(f.T).Underlying().(*types.Signature)
+		if !ok || sig.Results().Len() != 1 {
+			u.eng.specError("%s: fnapp needs a function value with one result", env.what)
+			return boolVal("true")
+		}
+		var as []*Val
+		for i := 1; i < len(args); i++ {
+			a := ev(i)
+			if i-1 < sig.Params().Len() && isIface(sig.Params().At(i-1).Type()) {
+				a = u.boxIface(st, a)
+			}
+			as = append(as, a)
+		}
+		return u.fnappVal(st, f, as, sig.Results().At(0).Type())
 	case "loopentry": // loopentry(e): the value of e when the loop was first reached (loop invariants only)
 		if env.loopEntry == nil {
 			u.eng.specError("%s: loopentry() is only available in loop invariants", env.what)
@@ -635,7 +657,7 @@ func (u *Unit) specCall(st *State, e *SExpr, env *SpecEnv, q *bool) *Val {
 	case "typeis": // typeis(x, "T"): dynamic type tag test with the Go type string
 		x := ev(0)
 		name := args[1].Name
-		if strings.HasPrefix(name, "map[") || strings.HasPrefix(name, "[]") {
+		if strings.HasPrefix(name, "map[") || strings.HasPrefix(name, "[]") || strings.HasPrefix(name, "*") || strings.Contains(name, ".") {
 			// composite type literals are normalised through the type checker's own spelling
 			name = types.TypeString(types.Unalias(u.resolveType(env.pkg, name)), nil)
 		}
